@@ -39,6 +39,8 @@ CONSTANTS
     CleanerAcquire, CleanerDrop, \* sequences of [op, f, perm]
     CleanerRefuse,               \* sequence (one entry per step of CleanerAcquire) of sequences of [op, f, perm]: the
                                  \* calls a cleaner performs after that step has failed, before it returns the error
+    CleanerRefuseGone,           \* the same for a lock step that fails on a file which has no name any more (the
+                                 \* code branches on the link count: "removed from the file system")
     NodeMap,                     \* [ProcessState verdict -> node level verdict]
     Monitors, Cleaners,          \* sets of process names (strings)
     Levels,                      \* [Monitors -> SUBSET {"pm", "cal", "node"}]: the levels at which a monitor may ask
@@ -74,7 +76,8 @@ view == <<exists, perm, content, lock, gpc, gcrashed, gcrashphase,
 
 NoPend == [v |-> "none", ph |-> "none", f |-> "none"]
 PInit == [pc |-> "idle", lv |-> "pm", pend |-> NoPend, q |-> 0, last |-> "none",
-          qdead |-> FALSE, qalone |-> FALSE, qdeadrun |-> FALSE, snap |-> <<>>, idx |-> 0, k |-> 0, chg |-> {},
+          qdead |-> FALSE, qalone |-> FALSE, qdeadrun |-> FALSE, snap |-> <<>>, idx |-> 0, k |-> 0, gone |-> FALSE,
+          chg |-> {},
           cres |-> "none", err |-> "none"]
 
 Init ==
@@ -303,7 +306,7 @@ CleanerResult(p, base, r, newpc) ==
         b5 == IF r # "Ok" /\ base.chg # {} THEN {SigRefused(r)} ELSE {}
     IN /\ ps' = [ps EXCEPT ![p] = [base EXCEPT !.pc = newpc, !.pend = NoPend, !.cres = r, !.err = "none",
                                                !.qdead = FALSE, !.qalone = FALSE, !.qdeadrun = FALSE, !.snap = <<>>,
-                                               !.k = 0, !.chg = {}]]
+                                               !.k = 0, !.gone = FALSE, !.chg = {}]]
        /\ Record(b1 \cup b2 \cup b3 \cup b4 \cup b5)
 
 \* the verdict of state() is available to p
@@ -356,9 +359,11 @@ AcqErr(o) ==   \* the error of ProcessCleaner::new when op o fails
 
 \* step j of CleanerAcquire failed with error e: the refusal tail CleanerRefuse[j] is executed (one call per
 \* step), then the error is returned
+TailOf(j, gone) == IF gone THEN CleanerRefuseGone[j] ELSE CleanerRefuse[j]
 Refuse(p, j, e) ==
-    IF Len(CleanerRefuse[j]) = 0 THEN CleanerResult(p, ps[p], e, "failed")
-    ELSE /\ ps' = [ps EXCEPT ![p] = [@ EXCEPT !.pc = "refuse", !.err = e, !.idx = j, !.k = 1]]
+    LET gone == CleanerAcquire[j].op = "lock" /\ ~exists[CleanerAcquire[j].f] IN
+    IF Len(TailOf(j, gone)) = 0 THEN CleanerResult(p, ps[p], e, "failed")
+    ELSE /\ ps' = [ps EXCEPT ![p] = [@ EXCEPT !.pc = "refuse", !.err = e, !.idx = j, !.k = 1, !.gone = gone]]
          /\ bad' = bad
 
 CAcqStep(p) ==
@@ -394,12 +399,16 @@ CRefuseStep(p) ==
     /\ p \in Cleaners /\ ps[p].pc = "refuse"
     /\ LET j == ps[p].idx
            k == ps[p].k
-           o == CleanerRefuse[j][k]
+           tail == TailOf(j, ps[p].gone)
+           o == tail[k]
            \* the fstat after a failed try_lock: link count 0 => "removed from the file system"
-           e2 == IF o.op = "fstat" /\ CleanerAcquire[j].op = "lock" /\ ~exists[o.f] THEN "DoesNotExist" ELSE ps[p].err
-           base == [ps[p] EXCEPT !.err = e2, !.chg = IF Changes(o) THEN @ \cup {o.f} ELSE @]
+           decides == o.op = "fstat" /\ CleanerAcquire[j].op = "lock"
+           e2 == IF decides /\ ~exists[o.f] THEN "DoesNotExist" ELSE ps[p].err
+           \* the code branches on what this fstat sees (not on what the failed lock call saw)
+           g2 == IF decides THEN ~exists[o.f] ELSE ps[p].gone
+           base == [ps[p] EXCEPT !.err = e2, !.gone = g2, !.chg = IF Changes(o) THEN @ \cup {o.f} ELSE @]
        IN /\ IF o.op = "fstat" THEN UNCHANGED fsvars ELSE Apply(p, o)
-          /\ IF k = Len(CleanerRefuse[j]) THEN CleanerResult(p, base, e2, "failed")
+          /\ IF k >= Len(TailOf(j, g2)) THEN CleanerResult(p, base, e2, "failed")
              ELSE /\ ps' = [ps EXCEPT ![p] = [base EXCEPT !.k = k + 1]]
                   /\ bad' = bad
           /\ hist' = Append(hist, <<p, o.op, o.f>>)
